@@ -1330,12 +1330,25 @@ func c03_runC03(e *Env) {
 		"run on the main goroutine and under 11 start styles (spawn+wait, f.spawn, go, not waited for, nested, go inside a thread, inside try / defer / each, three at once, through risor.Call), " +
 		"plus object.NewThread with faulting callables; outcome value / error / killed against the model's `enter`; script operations also wrapped in spawn(...).wait() and go func(){...}(); " +
 		"stream inputs whose Go panic vm.Run recovered are re-run as the body of a spawned function. " +
+		"Recursion by every route (stream `recursion`): cycles of 1–3 generated functions whose hand-over to the next one is a call expression, a builtin's callback " +
+		"(list.each / map / filter, sorted, call), a deferred call, or a closure around one of those (each / try / defer), unbounded or to a depth around the end of the frame array (or 1200–3000), " +
+		"entered from the main code, through risor.Call, from a builtin at top level, on a spawned thread (waited for or `go`), from the body of the third module of an import chain; outcome against the model's `nestRun` under `enter` " +
+		"(value / error = recovered index panic / killed = native stack exhausted; children with a 64 MB stack). " +
+		"Importers (stream `importer`): 1–10 Import calls on a real LocalImporter or FSImporter over a scratch directory, the module file rewritten before each call " +
+		"(missing / one of 16 texts that do not parse or compile / one of 7 that compile, .risor or .rsr, nested path), then 2–5 goroutines importing every name; " +
+		"results (module / not found / parse-or-compile error) against the model's `importSeq`. Stream `import`: scripts evaluated with risor.WithLocalImporter over 2–5 such module files " +
+		"(also modules that import others or raise while running): import / from-import inside try, inside a builtin's callback, on a spawned thread, one unguarded; per-step ok/err against the " +
+		"model's results for the Import calls the VM makes. " +
 		"A case is distinct by its bytes; a source case is non-trivial when the parser got past the first token (parse ok, or the error position is after the first token); " +
 		"script / heap / VM cases are non-trivial when they call at least one builtin or operator on a container"
 	c := &c03Run{e: e}
 	workers := 4
 	nValid, nMut, nSoup, nBytes, nHeap, nScript := 2500, 6000, 7000, 3500, 1500, 400
 	nSwitchErr := 600
+	nRec, nImporter, nImportScript := 260, 300, 250
+	if !e.Quick {
+		nRec, nImporter, nImportScript = 4000, 6000, 5000
+	}
 	if !e.Quick {
 		nValid, nMut, nSoup, nBytes, nHeap, nScript = 30000, 160000, 200000, 80000, 15000, 0
 		nSwitchErr = 20000
@@ -1349,6 +1362,9 @@ func c03_runC03(e *Env) {
 		c.srcCase("directed", d.src)
 	}
 	c.threadCases()
+	c.recursionCases(nRec)
+	c.importerCases(nImporter)
+	c.importScriptCases(nImportScript)
 	c.vmCases()
 	c.deepCases()
 	c.scriptCases(nScript, !e.Quick)
@@ -1549,6 +1565,10 @@ func c03Child(args []string) {
 			resp = c03RunThreadAPI(req.Opt)
 		case "heap":
 			resp = c03RunHeap(req.Opt, string(srcB))
+		case "importer":
+			resp = c03RunImporter(req.Opt)
+		case "importscript":
+			resp = c03RunImportScript(req.Opt, string(srcB), req.N)
 		}
 		resp.ID = req.ID
 		resp.Ms = time.Since(t0).Milliseconds()
